@@ -33,13 +33,29 @@ class Crash(Exception):
 class FileOps:
     """wraps the file-system calls of evolutionary_optimizer.py; raises Crash before performing op number `crash_at`"""
 
-    def __init__(self, crash_at=None):
+    def __init__(self, crash_at=None, with_close=False):
         self.crash_at = crash_at
+        self.with_close = with_close          # closing a file is a crash point of its own (oracle pass only: not in the model's op list)
         self.log = []
         self.pending_open = None
+        self.open_files = []
+
+    def _hard_kill(self):
+        """the process dies (SIGKILL / power loss), it is not unwound: whatever still sits in the user-space buffer of an open
+        file is lost.  The harness has to unwind with an exception, so the descriptors of the files that are open for
+        writing are pointed at /dev/null first: the flush that `close()` performs during unwinding then goes nowhere."""
+        for f in self.open_files:
+            try:
+                if not f.closed:
+                    null = os.open(os.devnull, os.O_WRONLY)
+                    os.dup2(null, f.fileno())
+                    os.close(null)
+            except Exception:
+                pass
 
     def _tick(self, label):
         if self.crash_at is not None and len(self.log) == self.crash_at:
+            self._hard_kill()
             raise Crash(label)
         self.log.append(label)
 
@@ -63,7 +79,36 @@ class FileOps:
             if "w" in mode:
                 me._tick("open:" + me.short(path))
                 me.pending_open = path
+                f = real_open(path, mode, *a, **k)
+                me.open_files.append(f)
+                return FileProxy(f, me.short(path))
             return real_open(path, mode, *a, **k)
+
+        class FileProxy:
+            """closing the file is a step of its own (a process can die between a rename and the close that flushes)"""
+
+            def __init__(self, f, label):
+                self._f, self._label = f, label
+
+            def __getattr__(self, name):
+                return getattr(self._f, name)
+
+            def __enter__(self):
+                return self
+
+            def __exit__(self, *exc):
+                self.close()
+                return False
+
+            def close(self):
+                if not self._f.closed:
+                    if me.with_close and exc_free():
+                        me._tick("close:" + self._label)
+                    self._f.close()
+
+        def exc_free():
+            import sys
+            return sys.exc_info()[0] is None
 
         def w_dump(obj, f, *a, **k):
             # a crash while writing = before anything of the new content is complete
@@ -71,8 +116,7 @@ class FileOps:
                 f.write(b"\x80partial")
                 f.flush()
                 raise Crash("during dump")
-            r = me.o_dump(obj, f, *a, **k)
-            f.flush()
+            r = me.o_dump(obj, f, *a, **k)          # (no flush here: the code under test decides when the bytes reach the file)
             me.log.append("finish:" + me.short(me.pending_open))
             return r
 
@@ -220,6 +264,35 @@ def rotation(ctx, rep):
                         rep.violate(f"crash at step {j}: {len(own)} checkpoint files of this call exist, limit {num}+1", "C13:too-many-checkpoints", cc)
                     if not all(os.path.exists(os.path.join(d, fn)) for fn in ("other.pkl", "ckx_3.pkl", "notes.txt")):
                         rep.violate("a file that does not belong to the optimizer was deleted", "C13:foreign-deleted", cc)
+                # ---- second pass, oracle only: the process may also die between any file-system step and the close() of a file
+                # that is still open (a hard kill loses what sits in the user-space buffer)
+                with FileOps(with_close=True) as fo3:
+                    shutil.rmtree(d)
+                    shutil.copytree(snapshot, d)
+                    run_call(dill.loads(o_pickled), base, num, max_gen, freq)
+                ops3 = list(fo3.log)
+                for j in range(len(ops3) + 1):
+                    if j < len(ops3) and not ops3[j].startswith("close:") and not (j > 0 and ops3[j - 1].startswith("close:")):
+                        continue          # only the crash points the first pass does not have
+                    shutil.rmtree(d)
+                    shutil.copytree(snapshot, d)
+                    with FileOps(crash_at=j, with_close=True) as fo4:
+                        o4 = dill.loads(o_pickled)
+                        try:
+                            run_call(o4, base, num, max_gen, freq)
+                        except Crash:
+                            pass
+                    st = disk_state(d, "ck")
+                    rep.count("crash_points_at_close")
+                    rep.case(("crash-close", ci, j, str(st)), True)
+                    done_first = any(op.startswith("rename:") or op.startswith("finish:c") for op in fo4.log)
+                    loadable = [int(s_[1:-1]) for s_ in st if s_.startswith("c") and s_.endswith("+")]
+                    cc = {**case, "crash_at": j, "disk": st, "performed": list(fo4.log), "hard_kill_before": ops3[j] if j < len(ops3) else "end"}
+                    if (done_first or any(s_.endswith("+") and s_.startswith("c") for s_ in fs0)) and not loadable:
+                        rep.violate(f"hard kill before '{cc['hard_kill_before']}': no loadable checkpoint on disk ({st})", "C13:no-loadable-checkpoint", cc)
+                    if done_first and loadable and min(loadable) > o4.generational_age:
+                        rep.violate(f"hard kill before '{cc['hard_kill_before']}': every loadable checkpoint is newer than generation {o4.generational_age}",
+                                    "C13:checkpoint-from-future", cc)
                 if ctx.driver_ok:
                     nums = "none" if num is None else str(num)
                     lines.append(f"ckptops ; {nums} ; {' '.join(map(str, ages))}")
